@@ -824,6 +824,10 @@ def rule_r7(ctx) -> List[R.Inst]:
             if isinstance(cur, ast.For):
                 anc.append(cur)
         own = [l_ for l_ in anc if isinstance(l_.target, ast.Name) and l_.target.id == ix and isinstance(l_.iter, ast.Call) and call_name(l_.iter) == "range"]
+        # ... or the counter of an enumerate(..) from 0 around the test
+        own += [l_ for l_ in anc if isinstance(l_.target, ast.Tuple) and l_.target.elts and isinstance(l_.target.elts[0], ast.Name) and
+                l_.target.elts[0].id == ix and isinstance(l_.iter, ast.Call) and call_name(l_.iter) == "enumerate" and len(l_.iter.args) == 1 and
+                all(k.arg == "start" and unparse(k.value) == "0" for k in l_.iter.keywords)]
         bumped = [x for l_ in anc[:1] for x in ast.walk(l_) if isinstance(x, ast.AugAssign) and unparse(x.target) == ix]
         if own and not bumped:
             insts.append(R.ok(rid, "sound:index", file, fn.node.lineno, idiom=f"all kinds are tested against the one index '{ix}', counted from 0 per volume group"))
